@@ -144,8 +144,8 @@ def case_routes4(c, res):
     return keys
 
 
-OPS = ['build', 'var', 'apply', 'ite', 'quant', 'let', 'expr', 'drop', 'gc', 'swap', 'sift', 'order', 'pairs', 'declare', 'undeclare']
-W = [4, 2, 4, 2, 2, 2, 1, 4, 2, 3, 1, 1, 1, 2, 2]
+OPS = ['build', 'var', 'apply', 'ite', 'quant', 'let', 'expr', 'drop', 'gc', 'swap', 'sift', 'order', 'pairs', 'declare', 'undeclare', 'image', 'fork', 'copyout']
+W = [4, 2, 4, 2, 2, 2, 1, 4, 2, 3, 1, 1, 1, 2, 2, 2, 1, 1]
 
 
 def _canon_check(sim):
